@@ -67,6 +67,16 @@ CHECKS = {
          "Every bundle of the stated alphabet (one spend x 23 amounts covering every encoding length class x 4 puzzle kinds x <=1 of ~108 interaction letters, a wrong-declared-hash letter per amount, every ordered pair of letters on the identity puzzle (quick: one third), two spends sharing the puzzle reveal with <=1 letter each, an ephemeral chain) under the 8 combinations of MEMPOOL_MODE, COST_CONDITIONS, INTERNED_GENERATOR is run through run_spendbundle and through run_block_generator2 on solution_generator, solution_generator_backrefs, BlockBuilder and InternedBlockBuilder output: same verdict, same conditions (mempool-only flags masked), equal condition cost, execution cost + 20, plain-generator cost - direct cost = 20 + 2*cost_per_byte (20 under INTERNED_GENERATOR), solution_generator bytes = harness rendering and calculate_generator_length = actual length.",
          "trusts: harness generator rendering (mc::genr) and serialiser; puzzle reveals are the canonical plain serialisation (the property's precondition)",
          "DESIGN.md#c08"),
+ "C13": ("E", "exploration",
+         "deviation-bounded value enumeration + exhaustive byte-neighbourhood differential round-trip over all streamable types",
+         "For all 169 streamable types (166 found by a run-time scan of /repo/crates, none uncovered) every value reachable from the all-zero builder tape by one deviation (thorough: two, first structural) plus hand-written version-packed letters round-trips through both decoders and hashes to SHA-256 of its encoding (commitment form for v2 proofs). Every byte string in the stated neighbourhood of every selected encoding (all single-byte substitutions over 12 values, all 255 for short bases; six 4-byte window plants; all prefixes; one appended byte: 2.8M strings quick, 13.6M thorough) is either rejected, or re-encodes to itself, is accepted identically by the trusted decoder and hashes consistently. The only failure is the known v2 proof-of-space hash panic (known finding).",
+         "trusts: sha2 crate, arbitrary's Unstructured, the well-formedness predicate transcribed from struct comments, quality_string() (checked against the 7 recorded vectors), identity-point substitution in bases; explorer and oracles self-tested against planted broken codecs (C13_SELFTEST=1)",
+         "DESIGN.md#c13"),
+ "C14": ("E", "exploration",
+         "exhaustive byte-neighbourhood enumeration with allocation, panic, crash and hang monitors in a sacrificial child process",
+         "The same byte neighbourhoods plus adversarial letters (lengths 2^32-1, 2^31, 2^21+1 at every 4-byte window; 10^5-deep and unterminated CLVM spines; back-references; over-long atom prefixes; a 1 MiB buffer) are offered to both decoders of all 169 types (5.5M decodes quick, 27M thorough): each decode returns a value or an error without panic, abort, fatal signal or watchdog timeout; peak live memory <= 512*len + 7 MiB with no request above 1 GiB; prefixes and one-byte extensions of accepted encodings are rejected; re-encode, hash, compare and Debug of every decoded value complete, except the known v2 proof-of-space hash panic (known finding).",
+         "trusts: the counting global allocator (per-thread peak), the child-process/breadcrumb/watchdog machinery (self-tested: C14_SELFTEST=greedy|oversize|abort|overflow|hang|codecs), the constants 512 B per input byte and Vec depth 3",
+         "DESIGN.md#c14"),
 }
 
 PENDING_REASON = "check not built yet in this round (planned: see DESIGN.md section for this property); not claimed until it runs"
